@@ -2868,6 +2868,12 @@ class VM:
             self._invoke_js_function(callee, args, this_val or UNDEFINED)
         elif callable(callee):
             # Native function
+            if getattr(callee, "_js_factory", None) is not None:
+                # var push = [].push; push(1): a method of a built-in kind called
+                # without a receiver has nothing to work on
+                raise JSTypeError(
+                    f"{callee._js_method} called on null or undefined"
+                )
             result = self._current_native(callee)(*args)
             self.stack.append(result if result is not None else UNDEFINED)
         else:
@@ -3050,6 +3056,7 @@ class VM:
         ):
             arguments_obj = JSArray()
             arguments_obj._elements = list(args)
+            arguments_obj._is_arguments = True  # array-like, but not an Array
             locals_list[arguments_slot] = arguments_obj
 
         # For named function expressions, bind the function name to itself
